@@ -72,6 +72,11 @@ structure Task where
   recovered : Bool := false
   /-- ghost: why the task failed (set when `result.fail` runs); not observable, used by the proofs -/
   cause : Option Cause := none
+  /-- ghost: publication stamp — value of the state's clock when `blockedOn` was published -/
+  pub : Nat := 0
+  /-- ghost: when the last dependency was compiled, a chain of `blockedOn` links led from it back to
+      this file through files published before this one: the cycle check that follows cannot pass -/
+  flag : Bool := false
 deriving Repr, DecidableEq
 
 structure St where
@@ -79,6 +84,8 @@ structure St where
   tasks : List (File × Task) := []
   /-- the process died (close of a closed channel inside the deferred recover) -/
   crashed : Bool := false
+  /-- ghost: number of `blockedOn` publications so far -/
+  clock : Nat := 0
 deriving Repr, DecidableEq
 
 def St.task (s : St) (f : File) : Option Task := (s.tasks.find? (·.1 == f)).map (·.2)
@@ -88,6 +95,16 @@ def setTask (f : File) (t : Task) : List (File × Task) → List (File × Task)
   | (g, u) :: r => if g == f then (g, t) :: r else (g, u) :: setTask f t r
 
 def St.set (s : St) (f : File) (t : Task) : St := { s with tasks := setTask f t s.tasks }
+
+/-- `rpath l p fuel x g`: within `fuel` links there is a chain x → … → g of published `blockedOn`
+    links whose sources were all published before stamp `p` (what `checkForDependencyCycle` walks;
+    such links cannot disappear while `g` is still checking its dependencies) -/
+def rpath (l : List (File × Task)) (p : Nat) : Nat → File → File → Bool
+  | 0, _, _ => false
+  | fuel+1, x, g =>
+    match (l.find? (·.1 == x)).map (·.2) with
+    | some tx => decide (tx.pub < p) && tx.blockedOn.any (fun z => z == g || rpath l p fuel z g)
+    | none => false
 
 inductive Ev
   | spawn (f : File)
@@ -142,30 +159,31 @@ def step (w : World) (s : St) : Ev → Option St
       | none => none
   | .blocked f ds => match s.task f with
       | some t => if t.pc == .resolved && ds == w.imports f && !ds.isEmpty && !s.crashed then
-          some (s.set f { t with pc := .deps 0, blockedOn := ds }) else none
+          some ({ s with clock := s.clock + 1 }.set f
+            { t with pc := .deps 0, blockedOn := ds, pub := s.clock, flag := false }) else none
       | none => none
   | .selfimport f => match s.task f with
       | some t => match t.pc with
-        | .deps i => if (w.imports f)[i]? == some f && !s.crashed then
+        | .deps i => if (w.imports f)[i]? == some f && !t.flag && !s.crashed then
             some (s.set f { t with pc := .failing .cycle }) else none
         | _ => none
       | none => none
   | .dep f d => match s.task f with
       | some t => match t.pc with
-        | .deps i => if (w.imports f)[i]? == some d && d != f && (s.task d).isSome && !s.crashed then
-            some (s.set f { t with pc := .deps (i+1) }) else none
+        | .deps i => if (w.imports f)[i]? == some d && d != f && (s.task d).isSome && !t.flag && !s.crashed then
+            some (s.set f { t with pc := .deps (i+1), flag := rpath s.tasks t.pub t.pub d f }) else none
         | _ => none
       | none => none
   | .cycle f d => match s.task f with
       | some t => match t.pc with
         | .deps (i+1) => if (w.imports f)[i]? == some d && w.reachesCycle f && !s.crashed then
-            some (s.set f { t with pc := .failing .cycle }) else none
+            some (s.set f { t with pc := .failing .cycle, flag := false }) else none
         | _ => none
       | none => none
   | .release f => match s.task f with
       | some t => if !t.holds || s.crashed then none else
         match t.pc with
-        | .deps i => if i == (w.imports f).length then
+        | .deps i => if i == (w.imports f).length && !t.flag then
             some ({ s with sem := s.sem + 1 }.set f { t with pc := .waiting 0, holds := false }) else none
         | .finished _ => some ({ s with sem := s.sem + 1 }.set f { t with holds := false })
         -- deferred release while a panic unwinds: resolver panic, or Close() panic
